@@ -46,7 +46,11 @@ uint64_t nondet_u64(void);
 size_t nondet_size(void);
 _Bool nondet_bool(void);
 #define VF_ASSERT(c, msg) __CPROVER_assert((c), msg)
+#ifdef VF_NO_WITNESS
+#define VF_WITNESS() ((void)0) /* path-exploration pre-pass: the witness is checked by the second, ordinary run */
+#else
 #define VF_WITNESS() __CPROVER_assert(0, "VF_WITNESS reachability (expected to fail)")
+#endif
 static inline uint8_t in_u8(void) { uint8_t v = nondet_u8(); VF_IN = v; return v; }
 static inline uint16_t in_u16(void) { uint16_t v = nondet_u16(); VF_IN = v; return v; }
 static inline uint32_t in_u32(void) { uint32_t v = nondet_u32(); VF_IN = v; return v; }
